@@ -353,6 +353,10 @@ harnesses! {
     fn c09_q_pushr_dna128_k64 [10] { pushr_body!(kmer128, u128, Dna, 64) }
     fn c09_q_rotr_iupac_k16_n1 [10] { rotr_body!(kmer, usize, Iupac, 16, 1) }
     fn c09_q_pushr_iupac_k16 [10] { pushr_body!(kmer, usize, Iupac, 16) }
+    // u128 storage, six-bit symbols: the last symbol of an 11-mer (and the 11th of a 21-mer) straddles bit 64
+    fn c09_q_pushr_amino128_k11 [10] { pushr_body!(kmer128, u128, Amino, 11) }
+    fn c09_q_pushl_amino128_k11 [10] { pushl_body!(kmer128, u128, Amino, 11) }
+    fn c09_q_pushr_amino128_k21 [10] { pushr_body!(kmer128, u128, Amino, 21) }
     fn c09_q_rotl_amino_k10_n9 [10] { rotl_body!(kmer, usize, Amino, 10, 9) }
     fn c09_q_pushl_amino_k10 [10] { pushl_body!(kmer, usize, Amino, 10) }
     fn c09_t_rotl_dna_k32_n0 [10] { rotl_body!(kmer, usize, Dna, 32, 0) }
@@ -373,6 +377,8 @@ harnesses! {
     fn c09_t_rotl_iupac_k16_n15 [10] { rotl_body!(kmer, usize, Iupac, 16, 15) }
     fn c09_t_pushl_iupac_k16 [10] { pushl_body!(kmer, usize, Iupac, 16) }
     fn c09_t_rotl_iupac128_k32_n1 [10] { rotl_body!(kmer128, u128, Iupac, 32, 1) }
+    fn c09_t_rotl_amino128_k11_n1 [10] { rotl_body!(kmer128, u128, Amino, 11, 1) }
+    fn c09_t_rotr_amino128_k21_n20 [10] { rotr_body!(kmer128, u128, Amino, 21, 20) }
     fn c09_t_pushr_iupac128_k32 [10] { pushr_body!(kmer128, u128, Iupac, 32) }
     fn c09_t_rotr_amino_k10_n1 [10] { rotr_body!(kmer, usize, Amino, 10, 1) }
     fn c09_t_pushr_amino_k10 [10] { pushr_body!(kmer, usize, Amino, 10) }
